@@ -136,6 +136,10 @@ type RaceBuilt interface{ NeedsRace() bool }
 // HangIsViolation: checks for which a confirmed hang is a violation (C07, C08).
 type HangIsViolation interface{ HangIsViolation() bool }
 
+// Staller: checks that want another stall allowance than the default 30 s
+// (a case that normally costs milliseconds may use a tighter one).
+type Staller interface{ StallSeconds() int }
+
 // Exhaustive: checks whose case list enumerates a finite space completely.
 type Exhaustive interface{ Exhaustive(tier string) bool }
 
